@@ -99,6 +99,8 @@ def with_opts(scen, rng, aux_ok=True):
         # loss kind / generator kind of the training problem (the built-in validation loss of the driver is an ODE loss)
         lk = ["ode", "statio", "nonstatio"][(k // 7) % 3] if C["vkind"] != "builtin" else "ode"
         set_lkind(o, lk, k)
+        o["bf16"] = bool(lk == "ode" and k % 3 == 0 and C["vkind"] not in ("builtin", "script") and o.get("optimizer", "dec") == "dec")      # network leaf stored in bfloat16
+        o["verbose"] = bool(k % 5 == 2)                      # solve(verbose=True) prints; nothing else may depend on it
         o["infleaf"] = bool(k % 4 == 1)                      # the parameters hold an unused leaf [-inf, +inf]: NaN-free, training must run
         o["rar"] = bool(lk == "ode" and (k // 3) % 2)        # generator built with the refinement option (store already full)
         if C["vkind"] == "builtin":
@@ -171,6 +173,7 @@ def run(pid, tier, seed, *, select, extra_cases, rule, assumptions, level="model
                      with_aux=sum(1 for r in recs if r["case"]["opt"].get("aux", "none") != "none"),
                      sharded_loop=sum(1 for r in recs if r["case"]["opt"].get("shard")),
                      partial_leaf_faults=sum(1 for r in recs if r["case"]["opt"].get("partial")),
+                     bfloat16_network_leaf=sum(1 for r in recs if r["case"]["opt"].get("bf16")),
                      params_with_infinite_leaf=sum(1 for r in recs if r["case"]["opt"].get("infleaf")),
                      generator_with_refinement_option=sum(1 for r in recs if r["case"]["opt"].get("rar")),
                      validation_with_own_param_generator=sum(1 for r in recs if r["case"]["opt"].get("vparam")),
